@@ -16,6 +16,7 @@ type Caps struct {
 	ColorScheme    bool // mode 2031, DSR 996
 	KittyKbd       bool
 	KittyGraphics  bool
+	NegTcap        int  // how an XTGETTCAP for a missing capability is answered: 0 as before (bare negative if any capability exists), 1 bare negative, 2 negative echoing the name
 	RGB            bool // answers XTGETTCAP RGB; displays direct colour
 	Smulx          bool // answers XTGETTCAP Smulx; displays styled/coloured underlines
 	VTE            bool // tertiary DA "~VTE" (also styled underlines)
@@ -1194,8 +1195,18 @@ func (t *Term) dcs(it Item) {
 		case name == "Smulx" && t.Caps.Smulx:
 			t.reply("\x1bP1+r" + strings.ToUpper(fmt.Sprintf("%x", "Smulx")) + "=" + strings.ToUpper(fmt.Sprintf("%x", "\x1b[4:%p1%dm")) + "\x1b\\")
 		default:
-			if t.Caps.RGB || t.Caps.Smulx {
+			// a capability the terminal does not have: no answer, the bare
+			// negative answer, or the negative answer echoing the name
+			// (kitty, foot)
+			switch t.Caps.NegTcap {
+			case 1:
 				t.reply("\x1bP0+r\x1b\\")
+			case 2:
+				t.reply("\x1bP0+r" + data + "\x1b\\")
+			default:
+				if t.Caps.RGB || t.Caps.Smulx {
+					t.reply("\x1bP0+r\x1b\\")
+				}
 			}
 		}
 	case string(it.Inter) == "$" && it.Final == 'q':
